@@ -125,8 +125,9 @@ class World(ControlWorld):
                 continue
             if len(w) != 1:
                 self.violate("C18.one_reply", f"waiting command {self.parked[s]!r} was answered with {len(w)} writes: {w!r}")
-            if not w[0].strip():
-                self.violate("C18.one_reply", f"waiting command {self.parked[s]!r} answered with an empty reply")
+            if not w[0].endswith(b"\n"):
+                self.violate("C18.one_reply", f"waiting command {self.parked[s]!r} answered with an unterminated reply {w[0][:40]!r}")
+            # (an empty line is a reply like any other: it is what str() of a message-less exception gives)
             self.note("released", self.parked[s], w)
             self.sit["C18.waiting_released"] += 1
             del self.parked[s]
